@@ -8,6 +8,8 @@ DESIGN_REF = "DESIGN.md section 5, C15"
 TECHNIQUE = "Coq refinement proof (concrete packet queue -> flat FIFO / write layout) + model-vs-implementation correspondence on operation histories with full state views"
 RULE = ("fn 2: every rx history (Add 0..3 bytes / Bytes 0..3 / Uint8 / Uint16 / Read / Discard / Reset / save-read-restore) up to length 4 "
         "(5 thorough) exhaustively + random histories to length 60, observables compared with the flat-FIFO spec and the model; "
+        "fn 4: the same with Position() / SetPosition() as operations of their own, so that a restore may come any number of operations after the save (e.g. after further "
+        "packets were enqueued): every history up to length 5 (6 thorough) over a small alphabet + random ones, compared with a tape (bytes, cursor, saved cursor); "
         "fn 1: random mixed histories (writes with changing packet size 9..600, AddPacket, reads, typed reads, Read, Discard, Reset, "
         "SetPosition to saved/stale positions, negative lengths), per step observable AND full internal state (verif hook) compared with the model; "
         "fn 3: writes at all boundary lengths k*(ps-8)+d for the boundary packet sizes (all 9..600 thorough), every/random call splits, packet size "
